@@ -47,6 +47,23 @@ def features(cfg):
     return sorted(f)
 
 
+def trace_features(trace, verdict):
+    """Configuration features plus features of the event the verdict points at."""
+    f = set(features(trace["cfg"]))
+    base, _, k = verdict.partition("@")
+    comps = trace["cfg"]["comps"]
+    if base in ("served", "served-notify") and k.isdigit() and 1 <= int(k) <= len(trace["ev"]):
+        e = trace["ev"][int(k) - 1]
+        for r in e["log"] + e["nlog"]:
+            if not r["ok"]:
+                c = r["l"][0]
+                readers = sum(1 for x in comps for lk in x["ins"] if lk["src"] == c)
+                if 1 <= c <= len(comps) and comps[c - 1]["kind"] == "pull" and readers >= 2 \
+                        and r["err"] == "FinamTimeError":
+                    f.add("refused_at_input_of_pull_component_with_several_readers")
+    return sorted(f)
+
+
 def _run_one(job):
     from . import sched_run  # imported in the worker: finam import per process
     cfg, link_order = job
@@ -190,7 +207,7 @@ def check(pid, tier):
         if p != pid:
             other[p] = other.get(p, 0) + 1
             continue
-        kf = match_known(pid, verdict, features(t["cfg"]))
+        kf = match_known(pid, verdict, trace_features(t, verdict))
         if kf:
             if kf["id"] not in ev.known:
                 ev.known.append(kf["id"])
